@@ -700,7 +700,13 @@ class ComponentProjectionAdjoint(Operator):
         else:
             out.set_zero()
 
-        out[self.index] = x
+        if (isinstance(self.index, list) and
+                len(set(self.index)) < len(self.index)):
+            # A component selected several times collects all contributions
+            for i, xi in zip(self.index, x):
+                out[i] += xi
+        else:
+            out[self.index] = x
 
         if isinstance(self.index, Integral):
             # A single component does not carry its weight in the product
